@@ -8,13 +8,13 @@ from lib import gpgen
 from py2v import gen
 
 PROP = "C04"
-PROPS_FILES = ["Props/C04_kernels.v", "Props/C04_acq.v", "Props/C04_gp.v", "Props/C04_poly.v", "Props/C04_handir.v", "Props/C04_acq_gauss.v", "Props/C04_loglik.v"]
+PROPS_FILES = ["Props/C04_kernels.v", "Props/C04_acq.v", "Props/C04_gp.v", "Props/C04_poly.v", "Props/C04_handir.v", "Props/C04_acq_gauss.v", "Props/C04_loglik.v", "Props/C04_loglik_se.v", "Props/C04_loglik_matern.v"]
 ASSUMPTIONS = [
   "real arithmetic (Coq R, Coquelicot is_derive); rounding outside the model",
   "log marginal likelihood gradient is proved IN FULL (Props/C04_loglik.v): Coq's R is given the MathComp realFieldType structure (Lib/RStruct.v), the derivative of the determinant, Jacobi's formula "
   "d ln det K = tr(K^-1 dK) and d(K^-1) = -K^-1 dK K^-1 are proved for matrices of differentiable real functions (Lib/RMxDeriv.v), the envelope identity P' a = 0 is the C02 lemma instantiated at R; the theorem "
-  "is stated on the regenerated value (GenLogLik / GenGP: noise, nugget, zero mean) and the regenerated gradient; hypotheses: the kernel-matrix entries are differentiable in the hyperparameter with the tensor slice as "
-  "derivative (per-kernel: C04_kernels), the Cholesky contract (L L' = K, lower triangular, positive diagonal) near theta, P' K^-1 P invertible; the older C04_loglik_grad_partial stays (superseded)",
+  "is stated on the regenerated value (GenLogLik / GenGP: noise, nugget, zero mean) and the regenerated gradient; for the SquareExponential, C2 and C4 Matern kernels the differentiability hypothesis is DISCHARGED by composing with C04_kernels (Props/C04_loglik_se.v, Props/C04_loglik_matern.v: the regenerated kernel matrix as a function of the "
+  "hyperparameter vector, the regenerated tensor fed to the regenerated gradient, also for the translated loops grad_linear / grad_logdom); remaining hypotheses: positive length scale at the point of differentiation, the Cholesky contract (L L' = K, lower triangular, positive diagonal) near theta, P' K^-1 P invertible; the older C04_loglik_grad_partial stays (superseded)",
   "axioms of the likelihood theorems: the four standard-library real-number / classical axioms plus ClassicalEpsilon.constructive_indefinite_description (standard library; needed for the choiceType structure on R)",
   "EI gradient: the clamp max(0, .) is never active (z Phi(z) + pdf(z) > 0 for all z, proved from the Gaussian tail in Lib/Gauss.v / Proofs/AcqGauss.v), so the generated gradient is the derivative unconditionally (Props/C04_acq_gauss.v)",
   "logistic success probability: gradient proved below the exponent cap (kappa (mean - threshold) < 40)",
